@@ -43,7 +43,7 @@ type c14V struct {
 	I int     `json:"i,omitempty"`
 	B bool    `json:"b,omitempty"`
 	L []c14V  `json:"l,omitempty"`
-	M []c14KV `json:"m,omitempty"` // keys are s or n, pairwise distinct
+	M []c14KV `json:"m,omitempty"` // keys are s, n, nil or b, pairwise distinct
 }
 
 type c14KV struct {
@@ -101,8 +101,13 @@ func (v c14V) c14Size() int {
 }
 
 func c14KeyText(k c14V) string {
-	if k.K == "n" {
+	switch k.K {
+	case "n":
 		return "n:" + strconv.Itoa(k.I)
+	case "nil":
+		return "nil:"
+	case "b":
+		return "b:" + strconv.FormatBool(k.B)
 	}
 	return "s:" + k.S
 }
@@ -114,6 +119,10 @@ func c14KeyOfReal(x any) string {
 		return "s:" + x
 	case int:
 		return "n:" + strconv.Itoa(x)
+	case nil:
+		return "nil:"
+	case bool:
+		return "b:" + strconv.FormatBool(x)
 	}
 	return ""
 }
@@ -124,6 +133,10 @@ func (v c14V) c14Real() any {
 		return v.S
 	case "n":
 		return v.I
+	case "nil":
+		return nil
+	case "b":
+		return v.B
 	}
 	panic("only scalar keys are converted")
 }
@@ -374,7 +387,7 @@ type c14Rhs struct {
 }
 
 type c14Op struct {
-	K     string   `json:"k"` // set del tmp with set2 setrest alias alist closure cvar out
+	K     string   `json:"k"` // set del tmp with set2 setrest reenter alias alist closure cvar out
 	Var   int      `json:"var"`
 	Path  []c14Sel `json:"path,omitempty"`
 	Rhs   c14Rhs   `json:"rhs"`
@@ -425,6 +438,7 @@ type c14Stats struct {
 	aliases   int
 	sharedHit int // assignments to a variable whose old value is shared with an alias
 	temps     int
+	reentered int // element assignments re-entered through their own right-hand side
 }
 
 type c14Run struct {
@@ -516,6 +530,9 @@ func c14Resolve(c c14V, sels []c14Sel, force bool) []c14V {
 				}
 			case "num":
 				idx = c14Int(n % 3)
+				if n%4 == 3 {
+					idx = c14V{K: "nil"} // $nil has a slot of its own in the hash map
+				}
 			default:
 				if len(cur.M) == 0 {
 					idx = c14Str("k" + strconv.Itoa(n%7))
@@ -970,6 +987,71 @@ func c14RunCase(c c14Case, ev *eval.Evaler) (c14Stats, error) {
 					return r.stats, err
 				}
 			}
+		case "reenter":
+			// One and the same assignment statement executed again (with other
+			// indices) while its own right-hand side is being evaluated: a
+			// recursive function. Every level evaluates its left-hand side
+			// against the value the variable has on the way down (nothing has
+			// been assigned yet), so the outermost level, which assigns last,
+			// decides: the variable ends as its old value with only the outer
+			// level's element replaced.
+			pOut := c14Resolve(old, op.Path, true)
+			pIn := c14Resolve(old, op.Path2, true)
+			ln := len(pOut)
+			if len(pIn) < ln {
+				ln = len(pIn)
+			}
+			if ln == 0 {
+				continue
+			}
+			pOut, pIn = pOut[:ln], pIn[:ln]
+			rOut, rIn := c14Str("re-outer"+fresh), c14Str("re-inner"+fresh)
+			if op.Rhs.Lit != nil {
+				rOut = *op.Rhs.Lit
+			}
+			nv, merr := c14AssocPath(old, pOut, rOut)
+			if _, err := c14AssocPath(old, pIn, rIn); err != nil || merr != nil {
+				continue
+			}
+			idxSrc := func(path []c14V) string {
+				parts := make([]string, len(path))
+				for i, p := range path {
+					parts[i] = p.c14Src()
+				}
+				return "[" + strings.Join(parts, " ") + "]"
+			}
+			lhs := name
+			for i := 0; i < ln; i++ {
+				lhs += "[$c14ks[$d][" + strconv.Itoa(i) + "]]"
+			}
+			kw := []string{"set", "set", "tmp"}[op.Form%3]
+			src := "var c14ks = [" + idxSrc(pIn) + " " + idxSrc(pOut) + "]; fn c14re {|d| " + kw + " " + lhs +
+				" = (if (> $d 0) { c14re (- $d 1); put " + rOut.c14Src() + " } else { put " + rIn.c14Src() + " })"
+			var body []c14V
+			var bodyWhat []string
+			if kw == "tmp" {
+				// the temporary value is in effect until the function returns: look at it
+				src += "; if (== $d 1) { put $" + name + " }"
+				body, bodyWhat = []c14V{nv}, []string{"$" + name + " inside the outer call"}
+			}
+			src += " }; c14re 1"
+			when += ": " + src
+			if err := r.exec(src, false, body, bodyWhat, when); err != nil {
+				return r.stats, err
+			}
+			if kw == "set" {
+				r.model[name] = nv
+				r.stats.assignOK++
+			} else {
+				r.stats.temps++
+			}
+			r.stats.reentered++
+			if ln >= 2 {
+				r.stats.nestedOK++
+			}
+			if r.shared[name] {
+				r.stats.sharedHit++
+			}
 		case "cvar":
 			nn := "g" + fresh
 			src := "var " + nn + " = { put $" + name + " }"
@@ -1068,9 +1150,14 @@ func c14GenMap(t *rapid.T, label string, depth, width int) c14V {
 	seen := map[string]bool{}
 	for i := 0; i < n; i++ {
 		var k c14V
-		if rapid.IntRange(0, 5).Draw(t, label+"nk") == 0 {
+		switch nk := rapid.IntRange(0, 8).Draw(t, label+"nk"); {
+		case nk == 0:
 			k = c14Int(rapid.IntRange(0, 2).Draw(t, label+"ik"))
-		} else {
+		case nk == 1:
+			k = c14V{K: "nil"}
+		case nk == 2 && i > 1:
+			k = c14V{K: "b", B: i%2 == 0}
+		default:
 			k = c14Str("k" + strconv.Itoa(rapid.IntRange(0, 6).Draw(t, label+"sk")))
 		}
 		if seen[c14KeyText(k)] {
@@ -1121,7 +1208,7 @@ func c14Gen(t *rapid.T) c14Case {
 		c.Init = append(c.Init, v)
 	}
 	kinds := []string{"set", "set", "set", "set", "set", "set", "set", "set", "del", "del", "del", "tmp", "tmp", "with", "with",
-		"set2", "setrest", "alias", "alias", "alist", "closure", "cvar", "out", "out"}
+		"set2", "setrest", "alias", "alias", "alist", "closure", "cvar", "out", "out", "reenter"}
 	n := rapid.IntRange(8, 40).Draw(t, "nops")
 	for i := 0; i < n; i++ {
 		op := c14Op{
@@ -1143,6 +1230,10 @@ func c14Gen(t *rapid.T) c14Case {
 			if len(op.Path) == 0 || rapid.Bool().Draw(t, "deep") {
 				op.Path = c14GenPath(t, "path", 2, 3)
 			}
+		case "reenter":
+			op.Path = c14GenPath(t, "path", 1, 2)
+			op.Path2 = c14GenPath(t, "path2", 1, 2)
+			op.Form = rapid.IntRange(0, 2).Draw(t, "form")
 		case "set2", "setrest", "tmp", "with":
 			if len(op.Path) == 0 {
 				op.Path = c14GenPath(t, "path", 1, 3)
@@ -1243,7 +1334,7 @@ func init() {
 	})
 	vs.Register(vs.Prop[c14Case]{
 		Name: "C14/history",
-		Rule: "2-3 variables holding nested lists/maps (depth<=3, occasionally a list of 33-70 elements), then 8-40 steps: set a[i][j].. = v (v a literal or $b[..], so structure is shared), del a[k].., two element lvalues in one set, a rest lvalue @a[i], tmp / with on an element inside a function (the body outputs everything, may assign another variable, may fail), and alias steps (var b = $a[..], var c = [$a $a[i]], a closure that captured the value, a closure that captured the variable, a value output and kept by the harness); indices are existing / negative / typed-number / new-key / out-of-range / non-integer; after every step every variable, every closure and every value ever output is compared with the Go model; non-trivial = at least one alias sharing structure with a variable that is assigned afterwards and at least two successful assignments with a path of length >= 2",
+		Rule: "2-3 variables holding nested lists/maps (depth<=3, occasionally a list of 33-70 elements), then 8-40 steps: set a[i][j].. = v (v a literal or $b[..], so structure is shared), del a[k].., two element lvalues in one set, a rest lvalue @a[i], an element set / tmp inside a recursive function whose right-hand side re-enters the same statement with other indices, tmp / with on an element inside a function (the body outputs everything, may assign another variable, may fail), and alias steps (var b = $a[..], var c = [$a $a[i]], a closure that captured the value, a closure that captured the variable, a value output and kept by the harness); indices are existing / negative / typed-number / new-key / out-of-range / non-integer; after every step every variable, every closure and every value ever output is compared with the Go model; non-trivial = at least one alias sharing structure with a variable that is assigned afterwards and at least two successful assignments with a path of length >= 2",
 		Gen:  c14Gen,
 		Check: func(c c14Case) error {
 			_, err := c14RunCase(c, elv.New())
@@ -1253,6 +1344,8 @@ func init() {
 			st, _ := c14RunCase(c, nil)
 			nt := st.sharedHit >= 1 && st.nestedOK >= 2
 			switch {
+			case nt && st.reentered > 0:
+				return "shared+nested+re-entered-assignment", true
 			case nt && st.temps > 0 && st.failed > 0:
 				return "shared+nested+tmp/with+failing-step", true
 			case nt && st.temps > 0:
